@@ -156,7 +156,7 @@ type UDPConn struct {
 	ReadCalls int
 
 	// fault injection (guarded by mu)
-	readErr   error                                  // returned by the next ReadFrom (once)
+	readErr   error                                           // returned by the next ReadFrom (once)
 	WriteHook func(b []byte, dst net.Addr) (int, error, bool) // if handled==true its result is returned
 	// Received counts datagrams enqueued.
 	Received int
@@ -464,13 +464,13 @@ type Conn struct {
 
 // Listener is a simulated TCP listener.
 type Listener struct {
-	net   *Net
-	addr  *net.TCPAddr
-	Name  string
-	mu    sync.Mutex
-	cond  *sync.Cond
-	q     []*Conn
-	closed bool
+	net       *Net
+	addr      *net.TCPAddr
+	Name      string
+	mu        sync.Mutex
+	cond      *sync.Cond
+	q         []*Conn
+	closed    bool
 	acceptErr error
 	CloseCnt  int
 }
